@@ -1,5 +1,466 @@
+//! C08 (transaction isolation), C10 (graph bound to init), C20 (peer cache).
+use std::collections::BTreeSet;
+
+use aranya_runtime::{Address, ClientError, MaxCut, PeerCache, Prior, Priority, StorageProvider};
+use graphkit::{audit::*, dag::*, driver::*, r#gen::*, model::*, replica::*};
 use vcore::*;
-use crate::Mons;
-pub fn iso_case(_cs: u64, _args: &Args, _mons: &mut Mons, _case: &Value) {}
-pub fn init_case(_cs: u64, _args: &Args, _mons: &mut Mons, _case: &Value) {}
-pub fn peer_case(_cs: u64, _args: &Args, _mons: &mut Mons, _case: &Value) {}
+
+use crate::{all_bits, Mons};
+
+// ------------------------------------------------------------------ C08
+
+struct OpenTrx {
+    trx: Trx<aranya_runtime::linear::testing::Manager>,
+    plan: Vec<usize>,
+    pos: usize,
+    /// commit stamp observed at the first add_commands, None = never used
+    stamp: Option<u64>,
+    /// nodes this transaction accepted (not yet committed)
+    accepted: Bits,
+}
+
+pub fn iso_case(cs: u64, _args: &Args, mons: &mut Mons, case: &Value) {
+    let mut rng = Rng::new(cs);
+    let mut cfg = GenCfg::small(&mut rng);
+    cfg.n = rng.urange(8, 50);
+    cfg.p_require = 0; // transactions evaluate at origin only; keep acceptance history-independent
+    let mut model = DagGen::new(cfg, &mut rng).build();
+    let n0 = model.len();
+    let init = model.node(0).id;
+    let mut rep = MemReplica::new_mem(&init);
+    let mut obs = Obs::default();
+    // bootstrap: init committed
+    {
+        let mut t = rep.trx();
+        rep.add(&mut t, &[wire(&model.dag, 0)]).expect("init");
+        rep.commit(t).expect("commit init");
+    }
+    let mut committed = Bits::new(n0);
+    committed.set(0);
+    let mut stamp = 0u64; // bumps on every successful commit / action
+    let k = rng.urange(2, 4);
+    let new_trx = |rep: &mut MemReplica, model: &Model, rng: &mut Rng| OpenTrx {
+        trx: rep.trx(),
+        plan: linear_extension(model, &|v| v < n0, *rng.pick(&[Order::RandomTopo, Order::DepthFirst, Order::Creation]), rng),
+        pos: 0,
+        stamp: None,
+        accepted: Bits::new(n0),
+    };
+    let mut trxs: Vec<OpenTrx> = (0..k).map(|_| new_trx(&mut rep, &model, &mut rng)).collect();
+    let mut script = vec![];
+    let mut overlapped_commit = false;
+    let steps = rng.urange(10, 40);
+    let mut prev_walk: BTreeSet<Id> = rep.walk().unwrap().keys().copied().collect();
+    for step in 0..steps {
+        let which = rng.usize(k);
+        match rng.weighted(&[6, 3, 1]) {
+            0 => {
+                // add a few nodes from this transaction's plan
+                let t = &mut trxs[which];
+                let cnt = rng.urange(1, 5);
+                let batch: Vec<usize> = t.plan[t.pos.min(t.plan.len())..(t.pos + cnt).min(t.plan.len())].to_vec();
+                if batch.is_empty() {
+                    continue;
+                }
+                t.pos += batch.len();
+                let wires: Vec<WireCmd> = batch.iter().map(|&v| wire(&model.dag, v)).collect();
+                if t.stamp.is_none() {
+                    t.stamp = Some(stamp);
+                }
+                script.push(format!("add(t{which},{batch:?})"));
+                match rep.add(&mut t.trx, &wires) {
+                    Ok(_) => {
+                        for &v in &batch {
+                            if !committed.get(v) {
+                                t.accepted.set(v);
+                            }
+                        }
+                    }
+                    Err(e) => {
+                        obs.fail("C08", &format!("add-in-interleaved-transaction-failed:{}", err_kind(&e)), json!({"script": script, "err": e.to_string()}));
+                        break;
+                    }
+                }
+            }
+            1 => {
+                // commit this transaction
+                let old = std::mem::replace(&mut trxs[which], new_trx(&mut rep, &model, &mut rng));
+                script.push(format!("commit(t{which})"));
+                let res = rep.commit(old.trx);
+                let others_open = trxs.iter().enumerate().filter(|(i, t)| *i != which && t.stamp.is_some()).count();
+                match (old.stamp, res) {
+                    (None, Ok(false)) => {}
+                    (None, other) => obs.fail("C08", "commit-of-unused-transaction", json!({"script": script, "got": format!("{other:?}")})),
+                    (Some(s), Ok(_)) => {
+                        if s != stamp {
+                            obs.fail("C08", "stale-transaction-committed", json!({"script": script, "first_read_stamp": s, "now": stamp}));
+                        }
+                        let mut c = committed.clone();
+                        c.or(&old.accepted);
+                        committed = c;
+                        stamp += 1;
+                        if others_open > 0 {
+                            overlapped_commit = true;
+                        }
+                        obs.count("commits_ok", 1);
+                    }
+                    (Some(s), Err(ClientError::ConcurrentTransaction)) => {
+                        if s == stamp {
+                            obs.fail("C08", "fresh-transaction-refused-as-concurrent", json!({"script": script}));
+                        }
+                        obs.count("commits_refused_concurrent", 1);
+                    }
+                    (Some(_), Err(e)) => obs.fail("C08", &format!("commit-failed:{}", err_kind(&e)), json!({"script": script, "err": e.to_string()})),
+                }
+            }
+            _ => {
+                // an action publishing one command
+                let act = ActionScript { dump: false, observe: vec![], publish: vec![PubSpec { prio: Some(Prio::Basic(1)), script: Script { tag: 0x7000_0000 + step as u32, quiet: false, ops: vec![Op::Put { n: 0, k: vec![b"act".to_vec()], v: vec![step as u8] }] } }], fail_after: None, nonce: cs ^ step as u64 };
+                script.push("action".to_string());
+                match rep.action(&act) {
+                    Ok(()) => {
+                        stamp += 1;
+                        let w = rep.walk().unwrap();
+                        match adopt(&mut model, &w) {
+                            Ok(newv) => {
+                                // The collapse may also have written a merge the DAG already
+                                // contains (same parents => same id) but nobody committed yet.
+                                let fresh: BTreeSet<usize> = newv.iter().copied().collect();
+                                for id in w.keys() {
+                                    let v = model.idx(id).expect("adopted");
+                                    if committed.get(v) {
+                                        continue;
+                                    }
+                                    let is_merge = matches!(model.node(v).par, Par::Merge(..));
+                                    if !is_merge && !fresh.contains(&v) {
+                                        obs.fail("C08", "action-committed-a-command-of-an-open-transaction", json!({"script": script, "node": v}));
+                                    }
+                                    committed.set(v);
+                                }
+                            }
+                            Err(e) => obs.fail("C08", "graph-after-action-not-explained", json!({"why": e})),
+                        }
+                        obs.count("actions_ok", 1);
+                    }
+                    Err(e) => obs.fail("C08", &format!("action-failed:{}", err_kind(&e)), json!({"script": script, "err": e.to_string()})),
+                }
+            }
+        }
+        // history only grows, and equals the model's committed set
+        let w: BTreeSet<Id> = rep.walk().unwrap().keys().copied().collect();
+        if !prev_walk.is_subset(&w) {
+            obs.fail("C08", "committed-command-set-shrank", json!({"script": script, "lost": prev_walk.difference(&w).count()}));
+        }
+        let want: BTreeSet<Id> = committed.iter().map(|v| model.node(v).id).collect();
+        if w != want {
+            let wk = rep.walk().unwrap();
+            obs.fail("C08", "committed-set-differs-from-isolation-model", json!({"script": script, "missing": want.difference(&w).map(|i| format!("{:?}", model.idx(i))).collect::<Vec<_>>(), "extra": w.difference(&want).map(|i| format!("{:?} {:?}", model.idx(i), wk.get(i))).collect::<Vec<_>>()}));
+            break;
+        }
+        prev_walk = w;
+    }
+    check_committed(&mut rep, &mut model, &committed, &json!({"what": "end of interleaving"}), true, &mut obs);
+    // check_committed attributes to C03/C09; re-tag for this property
+    for f in &mut obs.findings {
+        if f.prop != "C08" {
+            f.sig = format!("{}:{}", f.prop, f.sig);
+            f.prop = "C08";
+        }
+    }
+    if let Some(m) = mons.get("C08") {
+        m.eval();
+        if overlapped_commit {
+            m.nontrivial(hash_of(&script));
+        }
+        m.sample(|| json!({"mode": "iso", "case_seed": cs, "transactions": k, "script": script}));
+    }
+    mons.take(obs, case);
+}
+
+// ------------------------------------------------------------------ C10
+
+pub fn init_case(cs: u64, _args: &Args, mons: &mut Mons, case: &Value) {
+    let mut rng = Rng::new(cs);
+    let mut cfg = GenCfg::small(&mut rng);
+    cfg.n = rng.urange(3, 12);
+    let mut model = DagGen::new(cfg, &mut rng).build();
+    if model.len() < 3 {
+        return;
+    }
+    let init = model.node(0).id;
+    let mut obs = Obs::default();
+    let shape = cs % 7;
+    let names = ["correct-init", "parented-first-command", "policy-less-init", "foreign-id-init", "empty-batch", "init-rejected-by-policy", "new_graph-action"];
+    let mut rep = MemReplica::new_mem(&init);
+    let graphs = |rep: &mut MemReplica| -> Vec<[u8; 32]> {
+        rep.client.provider().list_graph_ids().map(|it| it.filter_map(|g| g.ok()).map(|g| *g.as_array()).collect()).unwrap_or_default()
+    };
+    let no_graph = |rep: &mut MemReplica, obs: &mut Obs, what: &str| {
+        if rep.exists() || !graphs(rep).is_empty() {
+            obs.fail("C10", "graph-created-by-invalid-first-command", json!({"shape": what}));
+        }
+    };
+    let good = wire(&model.dag, 0);
+    let mut t = rep.trx();
+    match shape {
+        0 => {
+            match rep.add(&mut t, &[good.clone()]) {
+                Ok(1) => {}
+                other => obs.fail("C10", "correct-init-not-accepted", json!({"got": format!("{other:?}")})),
+            }
+            if graphs(&mut rep) != vec![init] {
+                obs.fail("C10", "graph-id-is-not-init-id", json!({"graphs": graphs(&mut rep).len()}));
+            }
+        }
+        1 => {
+            // first command has a parent; the transaction's graph id is that command's id
+            let v = 1.min(model.len() - 1);
+            let c = wire(&model.dag, v);
+            let mut r2 = MemReplica::new_mem(&model.node(v).id);
+            let mut t2 = r2.trx();
+            match r2.add(&mut t2, &[c]) {
+                Err(ClientError::InitError) => {}
+                other => obs.fail("C10", "parented-first-command-not-refused", json!({"got": format!("{other:?}"), "cmd": format!("{:?}", wire(&model.dag, v)), "node": format!("{:?}", model.node(v))})),
+            }
+            no_graph(&mut r2, &mut obs, names[1]);
+        }
+        2 => {
+            let mut c = good.clone();
+            c.policy = None;
+            match rep.add(&mut t, &[c]) {
+                Err(ClientError::InitError) => {}
+                other => obs.fail("C10", "policy-less-init-not-refused", json!({"got": format!("{other:?}")})),
+            }
+            no_graph(&mut rep, &mut obs, names[2]);
+        }
+        3 => {
+            let mut c = good.clone();
+            let mut id = init;
+            id[rng.usize(32)] ^= 1 << rng.usize(8);
+            c.id = cmd_id(&id);
+            match rep.add(&mut t, &[c]) {
+                Err(ClientError::InitError) => {}
+                other => obs.fail("C10", "foreign-id-init-not-refused", json!({"got": format!("{other:?}")})),
+            }
+            no_graph(&mut rep, &mut obs, names[3]);
+        }
+        4 => {
+            let none: Vec<WireCmd> = vec![];
+            match rep.add(&mut t, &none) {
+                Err(ClientError::InitError) => {}
+                other => obs.fail("C10", "empty-first-batch-not-refused", json!({"got": format!("{other:?}")})),
+            }
+            no_graph(&mut rep, &mut obs, names[4]);
+        }
+        5 => {
+            let mut c = good.clone();
+            c.data = Script { tag: 1, quiet: false, ops: vec![Op::Put { n: 0, k: vec![], v: vec![1] }, Op::Fail] }.encode();
+            match rep.add(&mut t, &[c]) {
+                Err(ClientError::PolicyError(_)) => {}
+                other => obs.fail("C10", "init-rejected-by-policy-not-refused", json!({"got": format!("{other:?}")})),
+            }
+            no_graph(&mut rep, &mut obs, names[5]);
+        }
+        _ => {
+            let act = ActionScript { dump: false, observe: vec![], publish: vec![PubSpec { prio: None, script: model.node(0).script.clone() }], fail_after: None, nonce: cs };
+            match rep.new_graph(&act) {
+                Ok(g) => {
+                    let want = published_id(None, cs, 0);
+                    if *g.as_array() != want || graphs(&mut rep) != vec![want] {
+                        obs.fail("C10", "new_graph-id-is-not-init-command-id", json!({}));
+                    }
+                }
+                Err(e) => obs.fail("C10", "new_graph-failed", json!({"err": e.to_string()})),
+            }
+        }
+    }
+    // After a refused first command the same replica can still be initialised correctly.
+    if shape != 0 && shape != 6 {
+        let mut t = rep.trx();
+        match rep.add(&mut t, &[good.clone()]) {
+            Ok(1) => {}
+            other => obs.fail("C10", "correct-init-after-refused-attempt-fails", json!({"shape": names[shape as usize], "got": format!("{other:?}")})),
+        }
+        let _ = rep.commit(t);
+    } else if shape == 0 {
+        let _ = rep.commit(t);
+    }
+    // Existing graph: init-like commands in later batches.
+    if shape != 6 && rep.exists() {
+        let order: Vec<usize> = (1..model.len()).collect();
+        let cut = rng.usize(order.len() + 1);
+        let mut batch: Vec<WireCmd> = order[..cut].iter().map(|&v| wire(&model.dag, v)).collect();
+        let kind = rng.below(3);
+        let mut foreign = good.clone();
+        let mut fid = init;
+        fid[31] ^= 0x80;
+        foreign.id = cmd_id(&fid);
+        let intruder = match kind {
+            0 => good.clone(), // the graph's own init again: no-op
+            1 => foreign,      // parentless command with another id
+            _ => {
+                let mut f = foreign.clone();
+                f.policy = None;
+                f.prio = Priority::Basic(0);
+                f
+            }
+        };
+        batch.push(intruder);
+        let mut t = rep.trx();
+        let res = rep.add(&mut t, &batch);
+        match (kind, res) {
+            (0, Ok(c)) if c == cut => obs.count("own_init_redelivered_noop", 1),
+            (0, other) => obs.fail("C10", "redelivered-own-init-is-not-a-noop", json!({"got": format!("{other:?}"), "want_count": cut})),
+            (_, Err(ClientError::InitError)) => obs.count("foreign_parentless_refused", 1),
+            (_, other) => obs.fail("C10", "foreign-parentless-command-not-refused", json!({"got": format!("{other:?}")})),
+        }
+        // the rest of the graph can still be delivered and committed
+        let rest: Vec<WireCmd> = order[cut..].iter().map(|&v| wire(&model.dag, v)).collect();
+        match rep.add(&mut t, &rest).and_then(|_| rep.commit(t)) {
+            Ok(_) => {
+                let all = all_bits(&model);
+                check_committed(&mut rep, &mut model, &all, &json!({"what": "after init-like intruder"}), true, &mut obs);
+                if graphs(&mut rep) != vec![init] {
+                    obs.fail("C10", "graph-list-changed-by-init-like-command", json!({}));
+                }
+            }
+            Err(e) => obs.fail("C10", "delivery-after-init-like-command-fails", json!({"err": e.to_string(), "kind": kind})),
+        }
+        for f in &mut obs.findings {
+            if f.prop != "C10" {
+                f.sig = format!("{}:{}", f.prop, f.sig);
+                f.prop = "C10";
+            }
+        }
+    }
+    if let Some(m) = mons.get("C10") {
+        m.eval();
+        m.nontrivial(mix2(shape, hash_of(&obs.counts.keys().collect::<Vec<_>>())) ^ (cs % 64));
+        m.seen("first_command_shapes", names[shape as usize]);
+        m.sample(|| json!({"mode": "init", "case_seed": cs, "shape": names[shape as usize]}));
+    }
+    mons.take(obs, case);
+}
+
+// ------------------------------------------------------------------ C20
+
+pub fn peer_case(cs: u64, _args: &Args, mons: &mut Mons, case: &Value) {
+    let mut rng = Rng::new(cs);
+    let mut cfg = GenCfg::small(&mut rng);
+    cfg.n = rng.urange(10, 80);
+    if rng.chance(1, 3) {
+        cfg.shape = Shape::Fan;
+        cfg.width = rng.urange(8, 30);
+        cfg.n = cfg.n.max(cfg.width * 2);
+    }
+    let mut model = DagGen::new(cfg, &mut rng).build();
+    let n = model.len();
+    let init = model.node(0).id;
+    // committed down-set D, plus more commands flushed in an open transaction
+    let mut d = Bits::new(n);
+    let picks = if rng.bool() { n } else { rng.urange(1, 8) };
+    for _ in 0..picks {
+        let v = rng.usize(n);
+        d.or(model.ancestors(v));
+    }
+    let mut rep = MemReplica::new_mem(&init);
+    let none = Bits::new(n);
+    let mut obs = Obs::default();
+    let dd = d.clone();
+    let steps = history(&model, &|v| dd.get(v), &HistCfg { order: Order::RandomTopo, max_batch: 10, p_flush: 100, p_commit: 100, p_dup: 0 }, &mut rng);
+    let out = run_history(&mut rep, &mut model, &steps, &none, &RunCfg { check_every_commit: false, check_blocks: false }, &mut obs);
+    if out.aborted || out.committed != d {
+        mons.take(obs, case);
+        return;
+    }
+    // uncommitted-but-flushed remainder
+    let mut t = rep.trx();
+    let rest: Vec<usize> = linear_extension(&model, &|_| true, Order::Creation, &mut rng).into_iter().filter(|&v| !d.get(v)).collect();
+    let wires: Vec<WireCmd> = rest.iter().map(|&v| wire(&model.dag, v)).collect();
+    let flushed = rep.add(&mut t, &wires).is_ok() && rep.flush(&mut t).is_ok();
+
+    let mut cache = PeerCache::new();
+    let mut entries: Vec<usize> = vec![];
+    let mut tbuf = aranya_runtime::TraversalBuffer::new();
+    let graph = rep.graph;
+    let storage = rep.client.provider().get_storage(graph).expect("storage");
+    let mut stream = vec![];
+    let mut interesting = false;
+    for _ in 0..rng.urange(5, 150) {
+        let v = rng.usize(n);
+        let node = model.node(v).clone();
+        let (a, kind) = match rng.weighted(&[10, 2, 2]) {
+            0 => (Address { id: cmd_id(&node.id), max_cut: MaxCut::new(node.max_cut) }, if d.get(v) { "committed" } else { "uncommitted" }),
+            1 => (Address { id: cmd_id(&node.id), max_cut: MaxCut::new(node.max_cut + 1) }, "wrong-max_cut"),
+            _ => {
+                let mut id = node.id;
+                id[3] ^= 0x11;
+                (Address { id: cmd_id(&id), max_cut: MaxCut::new(node.max_cut) }, "unknown")
+            }
+        };
+        stream.push((v, kind));
+        if let Err(e) = cache.add_command(storage, a, &mut tbuf) {
+            obs.fail("C20", "peer-cache-add-failed", json!({"err": e.to_string()}));
+            break;
+        }
+        obs.count(&format!("recorded_{kind}"), 1);
+        // model update
+        if kind == "committed" {
+            if entries.iter().any(|&e| model.anc_eq(v, e)) {
+                interesting = true; // ignored: ancestor of (or equal to) an entry
+            } else {
+                let before = entries.len();
+                entries.retain(|&e| !model.anc_eq(e, v));
+                if entries.len() < before {
+                    interesting = true;
+                    obs.count("evictions_of_ancestors", 1);
+                }
+                if entries.len() < 10 {
+                    entries.push(v);
+                } else {
+                    obs.count("ignored_because_full", 1);
+                }
+            }
+        } else {
+            interesting = true;
+        }
+        // invariants + equality with the model
+        let got: Vec<(Id, u64)> = cache.heads().iter().map(|h| (*h.id.as_array(), h.max_cut.get())).collect();
+        if got.len() > 10 {
+            obs.fail("C20", "peer-cache-exceeds-ten-entries", json!({"len": got.len()}));
+        }
+        let mut got_idx = vec![];
+        for (id, mc) in &got {
+            match model.idx(id) {
+                Some(i) if d.get(i) && model.node(i).max_cut == *mc => got_idx.push(i),
+                _ => obs.fail("C20", "peer-cache-holds-command-not-committed-locally", json!({"id": short(id), "stream": format!("{stream:?}")})),
+            }
+        }
+        for (i, &x) in got_idx.iter().enumerate() {
+            for &y in &got_idx[i + 1..] {
+                if model.anc_eq(x, y) || model.anc_eq(y, x) {
+                    obs.fail("C20", "peer-cache-entry-is-ancestor-of-another", json!({"x": x, "y": y, "stream": format!("{stream:?}")}));
+                }
+            }
+        }
+        let gs: BTreeSet<usize> = got_idx.iter().copied().collect();
+        let ws: BTreeSet<usize> = entries.iter().copied().collect();
+        if gs != ws {
+            obs.fail("C20", "peer-cache-differs-from-update-rule", json!({"got": gs, "want": ws, "stream": format!("{stream:?}")}));
+            break;
+        }
+        obs.max("max_cache_len", got.len() as u64);
+    }
+    if let Some(m) = mons.get("C20") {
+        m.eval();
+        if interesting {
+            m.nontrivial(hash_of(&stream));
+        }
+        if flushed {
+            m.count("cases_with_flushed_uncommitted_commands", 1);
+        }
+        m.sample(|| json!({"mode": "peer", "case_seed": cs, "commands": n, "committed": d.count(), "stream": stream.iter().take(20).collect::<Vec<_>>()}));
+    }
+    let _ = (Prior::<u8>::None, case);
+    mons.take(obs, case);
+}
